@@ -358,6 +358,9 @@ func (m *c04Model) solve(g *c04Goal, e *menv, local map[string]*mt, k func(*menv
 			if s := k(e); s != sigFail {
 				return s
 			}
+			if i > 3000 {
+				return sigCap // repeat/0 whose continuation keeps failing without an event: it does not terminate
+			}
 		}
 		return sigFail
 	case "and":
@@ -464,6 +467,14 @@ func (m *c04Model) solve(g *c04Goal, e *menv, local map[string]*mt, k func(*menv
 		return m.raise(m.copyTerm(e, t, map[int]*mt{}))
 	case "berr":
 		switch g.Kind {
+		case "culprit":
+			v := m.term(g.T, local)
+			e2, ok := e.unify(v, mAtom("a"))
+			if !ok {
+				return sigFail
+			}
+			m.inScope = true
+			return m.raise(isoError(mCmp("type_error", mAtom("atom"), mCmp("f", e2.resolve(v)))))
 		case "eval", "evalcmp":
 			return m.raise(isoError(mCmp("evaluation_error", mAtom("zero_divisor"))))
 		case "type":
